@@ -43,7 +43,7 @@ use serde_json::json;
 use specs::prelude::*;
 use specs::rayon::{ThreadPool, ThreadPoolBuilder};
 use specs::storage::{BTreeStorage, MaskedStorage};
-use specs::world::EntitiesRes;
+use specs::world::{EntitiesRes, Index};
 use specs::RunningTime;
 
 use crate::report::{trace, Report};
@@ -103,6 +103,8 @@ pub struct Monitor {
     ent_created: AtomicU64,
     ent_deleted: AtomicU64,
     lazy_queued: AtomicU64,
+    /// spawner graph: every system holding `Entities` creates hundreds of entities per run
+    burst: std::sync::atomic::AtomicBool,
 }
 
 fn atomics(n: usize) -> Vec<AtomicU64> {
@@ -133,6 +135,7 @@ impl Monitor {
             ent_created: AtomicU64::new(0),
             ent_deleted: AtomicU64::new(0),
             lazy_queued: AtomicU64::new(0),
+            burst: std::sync::atomic::AtomicBool::new(false),
         }
     }
     fn fault(&self, sig: &'static str, msg: String) {
@@ -415,16 +418,76 @@ where
     (sum, n, bad)
 }
 
+
+/// A user storage without a default value (`TryDefault` fails): it has to be registered up front
+/// through `register_with_storage`, and every later `setup` (dispatcher, `exec`, `World::setup`) has
+/// to leave the registered storage alone instead of trying to build another one.
+pub struct NoDefaultStorage<T>(BTreeStorage<T>, #[allow(dead_code)] u32);
+
+impl<T> NoDefaultStorage<T> {
+    pub fn with_tag(tag: u32) -> Self {
+        NoDefaultStorage(BTreeStorage::default(), tag)
+    }
+}
+
+impl<T> specs::storage::TryDefault for NoDefaultStorage<T> {
+    fn try_default() -> Result<Self, String> {
+        Err("NoDefaultStorage has no default: it must be registered with register_with_storage".into())
+    }
+}
+
+impl<T> specs::storage::UnprotectedStorage<T> for NoDefaultStorage<T> {
+    type AccessMut<'a> = <BTreeStorage<T> as specs::storage::UnprotectedStorage<T>>::AccessMut<'a> where T: 'a;
+
+    unsafe fn clean<B>(&mut self, has: B)
+    where
+        B: specs::hibitset::BitSetLike,
+    {
+        unsafe { self.0.clean(has) }
+    }
+    unsafe fn get(&self, id: Index) -> &T {
+        unsafe { self.0.get(id) }
+    }
+    unsafe fn get_mut(&mut self, id: Index) -> Self::AccessMut<'_> {
+        unsafe { self.0.get_mut(id) }
+    }
+    unsafe fn insert(&mut self, id: Index, value: T) {
+        unsafe { self.0.insert(id, value) }
+    }
+    unsafe fn remove(&mut self, id: Index) -> T {
+        unsafe { self.0.remove(id) }
+    }
+}
+
+impl<T> specs::storage::SharedGetMutStorage<T> for NoDefaultStorage<T> {
+    unsafe fn shared_get_mut(&self, id: Index) -> Self::AccessMut<'_> {
+        unsafe { self.0.shared_get_mut(id) }
+    }
+}
+
 comp!(A, VecStorage, 0);
 comp!(B, DenseVecStorage, 1);
 comp!(C, HashMapStorage, 2);
-comp!(D, BTreeStorage, 3);
+comp!(D, NoDefaultStorage, 3);
 
 impl<'a> Part for Entities<'a> {
     fn enter(&self, _: &mut Cx) {}
     #[inline(never)]
     fn phase1(&mut self, cx: &mut Cx) {
-        match cx.rng.below(5) {
+        let spawner = cx.m.burst.load(SeqCst);
+        match if spawner { 5 } else { cx.rng.below(6) } {
+            5 => {
+                // a burst of creations (co-staged systems race on the free list and the index counter);
+                // most of them are deleted again so that the next frame starts with a long free list
+                let n = if spawner { 300 + cx.rng.below(1200) } else { 20 + cx.rng.below(180) };
+                for k in 0..n {
+                    let e = self.create();
+                    cx.m.ent_created.fetch_add(1, SeqCst);
+                    if k % 8 != 0 && self.delete(e).is_ok() {
+                        cx.m.ent_deleted.fetch_add(1, SeqCst);
+                    }
+                }
+            }
             0 => {
                 cx.created = Some(self.create());
                 cx.m.ent_created.fetch_add(1, SeqCst);
@@ -1111,6 +1174,205 @@ fn get_pool(pools: &mut BTreeMap<usize, Arc<ThreadPool>>, n: usize) -> Result<Ar
     Ok(p)
 }
 
+
+// ---------------------------------------------------------------------------
+// spawner storm: co-staged systems that share `Entities` and allocate in tight loops
+// ---------------------------------------------------------------------------
+
+/// What one spawner did in its last run.
+#[derive(Default)]
+struct StormSlot {
+    runs: AtomicU64,
+    out: Mutex<Vec<Entity>>,
+}
+
+struct StormShared {
+    slots: Vec<StormSlot>,
+    per_run: AtomicU64,
+    inside: AtomicU64,
+    max_inside: AtomicU64,
+}
+
+struct Spawner<const K: usize> {
+    sh: Arc<StormShared>,
+    id: usize,
+}
+
+impl<const K: usize> Spawner<K> {
+    fn go(&self, ents: &Entities, lazy: Option<&LazyUpdate>) {
+        let sh = &*self.sh;
+        let now = sh.inside.fetch_add(1, SeqCst) + 1;
+        sh.max_inside.fetch_max(now, SeqCst);
+        sh.slots[self.id].runs.fetch_add(1, SeqCst);
+        let n = sh.per_run.load(SeqCst) as usize;
+        let mut mine = Vec::with_capacity(n);
+        match (K + self.id) % 3 {
+            0 => {
+                for _ in 0..n {
+                    mine.push(ents.create());
+                }
+            }
+            1 => mine.extend(ents.create_iter().take(n)),
+            _ => match lazy {
+                Some(l) => {
+                    for _ in 0..n {
+                        mine.push(l.create_entity(ents).build());
+                    }
+                }
+                None => {
+                    for _ in 0..n {
+                        mine.push(ents.create());
+                    }
+                }
+            },
+        }
+        *sh.slots[self.id].out.lock().unwrap_or_else(|e| e.into_inner()) = mine;
+        sh.inside.fetch_sub(1, SeqCst);
+    }
+}
+
+impl<'a> System<'a> for Spawner<0> {
+    type SystemData = Entities<'a>;
+    fn run(&mut self, e: Self::SystemData) {
+        self.go(&e, None)
+    }
+}
+impl<'a> System<'a> for Spawner<1> {
+    type SystemData = (Entities<'a>, Read<'a, LazyUpdate>);
+    fn run(&mut self, (e, l): Self::SystemData) {
+        self.go(&e, Some(&*l))
+    }
+}
+impl<'a> System<'a> for Spawner<2> {
+    type SystemData = (ReadStorage<'a, A>, Entities<'a>);
+    fn run(&mut self, (_a, e): Self::SystemData) {
+        self.go(&e, None)
+    }
+}
+
+/// Several systems whose declared accesses do not conflict (they read `EntitiesRes`, `LazyUpdate`, a
+/// storage) are co-staged and allocate entities in tight loops while the free list runs dry in the
+/// middle of the frame. Each frame: no panic, every system exactly once, every handle unique, every
+/// handle alive after `maintain`.
+fn storm_case(rep: &mut Report, case: u64, pools: &mut BTreeMap<usize, Arc<ThreadPool>>) {
+    let mut rng = derive(rep.cfg.seed, &[hash_str("dispatch-storm"), case]);
+    let nsys = rng.range(3, 9);
+    let threads = *rng.pick(&[4usize, 8, 16]);
+    let frames = rng.range(10, 40);
+    let mut hist = vec![format!("spawner storm: {} co-staged systems on a pool of {}, {} frames", nsys, threads, frames)];
+    trace::push(&hist[0]);
+    let pool = match get_pool(pools, threads) {
+        Ok(p) => p,
+        Err(e) => {
+            rep.inconclusive.push(e);
+            return;
+        }
+    };
+    let sh = Arc::new(StormShared {
+        slots: (0..nsys).map(|_| StormSlot::default()).collect(),
+        per_run: AtomicU64::new(0),
+        inside: AtomicU64::new(0),
+        max_inside: AtomicU64::new(0),
+    });
+    let mut b = DispatcherBuilder::new().with_pool(pool);
+    for id in 0..nsys {
+        let name = format!("spawner{}", id);
+        match rng.below(3) {
+            0 => b.add(Spawner::<0> { sh: sh.clone(), id }, &name, &[]),
+            1 => b.add(Spawner::<1> { sh: sh.clone(), id }, &name, &[]),
+            _ => b.add(Spawner::<2> { sh: sh.clone(), id }, &name, &[]),
+        }
+    }
+    let mut d = b.build();
+    let mut world = World::new();
+    d.setup(&mut world);
+    rep.cases_run += 1;
+    rep.bump("storm_cases", 1);
+    let mut live: Vec<Entity> = Vec::new();
+    for f in 0..frames {
+        // free list length ~ a fraction of what the frame will allocate, so it runs dry mid-frame
+        let per = rng.range(200, 2000) as u64;
+        let demand = per as usize * nsys;
+        let want_free = demand * rng.range(1, 8) / 8;
+        let fresh: Vec<Entity> = world.create_iter().take(want_free).collect();
+        live.extend(fresh);
+        rng.shuffle(&mut live);
+        let cut = live.len().saturating_sub(want_free);
+        let dead: Vec<Entity> = live.split_off(cut);
+        if let Err(e) = world.delete_entities(&dead) {
+            rep.violation("C11", case, hist.len(), format!("storm frame {}: deleting live entities failed: {:?}", f, e), "C11:storm-setup".into(), &hist);
+            return;
+        }
+        world.maintain();
+        sh.per_run.store(per, SeqCst);
+        let line = format!("frame {}: {} recycled indices, {} systems x {} creations", f, dead.len(), nsys, per);
+        trace::push(&line);
+        hist.push(line);
+        rep.op("storm_dispatch");
+        let before: Vec<u64> = sh.slots.iter().map(|s| s.runs.load(SeqCst)).collect();
+        let r = catch_unwind(AssertUnwindSafe(|| d.dispatch(&world)));
+        rep.bump("dispatches", 1);
+        if let Err(e) = r {
+            let msg = format!(
+                "storm frame {}: a parallel dispatch of systems that only share `Entities` (declared read) panicked: {}",
+                f,
+                panic_text(&e)
+            );
+            rep.violation("C11", case, hist.len(), msg, "C11:dispatch-panic".into(), &hist);
+            return;
+        }
+        let mut seen: std::collections::HashSet<Entity> = std::collections::HashSet::with_capacity(demand);
+        for (i, s) in sh.slots.iter().enumerate() {
+            let runs = s.runs.load(SeqCst);
+            if runs != before[i] + 1 {
+                let msg = format!("storm frame {}: system #{} ran {} times instead of exactly once", f, i, runs - before[i]);
+                rep.violation("C11", case, hist.len(), msg, "C11:not-exactly-once".into(), &hist);
+                return;
+            }
+            let out = std::mem::take(&mut *s.out.lock().unwrap_or_else(|e| e.into_inner()));
+            if out.len() != per as usize {
+                let msg = format!("storm frame {}: system #{} obtained {} entities instead of {}", f, i, out.len(), per);
+                rep.violation("C11", case, hist.len(), msg, "C11:storm-count".into(), &hist);
+                return;
+            }
+            for e in out {
+                if !seen.insert(e) {
+                    let msg = format!("storm frame {}: {:?} was handed to two co-staged systems (second: #{})", f, e, i);
+                    rep.violation("C11", case, hist.len(), msg, "C11:storm-duplicate-entity".into(), &hist);
+                    return;
+                }
+            }
+        }
+        if let Some(e) = live.iter().find(|e| seen.contains(e)) {
+            let msg = format!("storm frame {}: {:?} was handed out although it is still alive", f, e);
+            rep.violation("C11", case, hist.len(), msg, "C11:storm-duplicate-entity".into(), &hist);
+            return;
+        }
+        world.maintain();
+        {
+            let ents = world.entities();
+            if let Some(e) = seen.iter().find(|e| !ents.is_alive(**e)) {
+                let msg = format!("storm frame {}: {:?} created inside the dispatch is not alive after maintain", f, e);
+                rep.violation("C11", case, hist.len(), msg, "C11:storm-lost-entity".into(), &hist);
+                return;
+            }
+        }
+        rep.bump("storm_entities_created", seen.len() as u64);
+        rep.max("storm_max_concurrent_spawners", sh.max_inside.load(SeqCst));
+        live.extend(seen);
+        // keep the world bounded
+        if live.len() > 40_000 {
+            let dead: Vec<Entity> = live.split_off(5_000);
+            let _ = world.delete_entities(&dead);
+            world.maintain();
+        }
+    }
+    if sh.max_inside.load(SeqCst) >= 2 {
+        rep.bump("storm_cases_with_overlap", 1);
+        rep.distinct(derive(0, &[hash_str("storm"), nsys as u64, threads as u64, sh.max_inside.load(SeqCst)]).next());
+    }
+}
+
 // ---------------------------------------------------------------------------
 // driver
 // ---------------------------------------------------------------------------
@@ -1310,6 +1572,10 @@ pub fn run(rep: &mut Report) {
         if rep.full() {
             break;
         }
+        if env.par && !cfg!(miri) && case % 40 == 39 {
+            crate::report::guarded(rep, case, |rep| storm_case(rep, case, &mut pools));
+            continue;
+        }
         crate::report::guarded(rep, case, |rep| run_case(rep, case, &env, &mut pools));
     }
 }
@@ -1358,6 +1624,13 @@ fn run_case(rep: &mut Report, case: u64, env: &Env, pools: &mut BTreeMap<usize, 
     let initial: Vec<Entity> = (0..n_ent).map(|_| world.create_entity().build()).collect();
     let case_seed = derive(seed, &[hash_str("dispatch-sys"), case]).next();
     let mon = Arc::new(Monitor::new(case_seed, g.pool, env.spin, nsys, initial.clone()));
+    if rng.chance(1, 12) {
+        // spawner graph: a long free list to start with, and bursts of creations in every system
+        // that holds `Entities` (they are co-staged: `Entities` is only ever a shared read)
+        let junk: Vec<Entity> = world.create_iter().take(rng.range(500, 3000)).collect();
+        world.delete_entities(&junk).expect("junk deletion");
+        mon.burst.store(true, SeqCst);
+    }
 
     let pool = match get_pool(pools, g.pool) {
         Ok(p) => p,
@@ -1391,11 +1664,19 @@ fn run_case(rep: &mut Report, case: u64, env: &Env, pools: &mut BTreeMap<usize, 
         world.register::<A>();
         world.register::<C>();
     }
+    // D's storage has no default value: it is registered up front and every setup has to leave it alone
+    world.register_with_storage::<_, D>(|| NoDefaultStorage::with_tag(7));
     dispatcher.setup(&mut world);
     world.register::<A>();
     world.register::<B>();
     world.register::<C>();
-    world.register::<D>();
+    if rng.chance(1, 4) {
+        // a second setup of storage handles on the complete world is a no-op
+        world.setup::<(ReadStorage<D>, WriteStorage<D>, ReadStorage<A>)>();
+        world.exec(|(d, _e): (ReadStorage<D>, Entities)| {
+            let _ = d.count();
+        });
+    }
     hist.push(format!("setup (A, C registered before: {}); {} entities", reg_first, n_ent));
     trace::push(hist.last().unwrap());
     {
